@@ -56,6 +56,8 @@ pub fn any_usize(_name: &str) -> usize { next_val("usize").parse().unwrap() }
 pub fn any_bool(_name: &str) -> bool { next_val("bool") == "true" }
 /// symbolic string of at most `max` characters, printable ASCII (0x20..0x7e)
 pub fn any_str(_name: &str, _max: usize) -> String { unescape(&next_val("str")) }
+/// symbolic token: at most `max` printable ASCII characters, none of them a space, ';' or '|'
+pub fn any_token(_name: &str, _max: usize) -> String { unescape(&next_val("str")) }
 /// solver-chosen integer in 0..n
 pub fn choice(_name: &str, _n: usize) -> usize { next_val("choice").parse().unwrap() }
 /// tier parameter (concrete; provided by the check driver)
